@@ -33,7 +33,8 @@ def order_rule(ctx, prop, rule, fn_name, data_producer, optional_data):
         return None
     M = _effects_in_memory(fa)
     labels = set(l for l, _ in M)
-    for want in ("self.header =", "Bitfield::update", "update_contiguous_length", "MerkleTree::commit"):
+    # update_contiguous_length is hint maintenance (C08.R3), not part of the ordering premise
+    for want in ("self.header =", "Bitfield::update", "MerkleTree::commit"):
         if want not in labels:
             ctx.missing(prop, rule, A + ": " + want, "in-memory commit site missing")
             return None
